@@ -1,5 +1,6 @@
 """C28 - ward / xward / REI equivalents returned by get_equivalent reproduce the operating point of the retained (internal +
 boundary) buses and leave the original network unchanged."""
+import copy
 import sys
 
 import numpy as np
@@ -14,27 +15,38 @@ from ..gen import netgen
 from ..probe import snapshot
 
 PROPERTY = "C28"
-READY = False
-NOT_READY_REASON = "under construction"
+READY = True
 LEVEL = "exploration"
 TECHNIQUE = ("runtime monitoring: every equivalent returned by get_equivalent for a seeded random network split is re-solved with runpp "
              "and judged against the operating point of the original network; deep snapshot of the original before/after")
-CASES = {"quick": 400, "thorough": 12000}
-BUDGET = {"quick": 60, "thorough": 1500}
+CASES = {"quick": 280, "thorough": 8000}
+BUDGET = {"quick": 75, "thorough": 1500}
 CASE_TIMEOUT = 180
-FLOORS = {"quick": {"nontrivial": 150, "tags": {}, "extras": {}, "max_skip_frac": 0.3},
-          "thorough": {"nontrivial": 5000, "max_skip_frac": 0.3}}
+FLOORS = {"quick": {"nontrivial": 130, "tags": {"returned:ward": 120, "returned:xward": 100, "returned:rei": 120, "ext_gen": 100,
+                                                "ext_sgen": 35, "ext_shunt": 55, "start_random": 20, "ward:ward_type=ward_admittance": 30,
+                                                "rei:load_separate=True": 30},
+                    "extras": {"judged_ok": 300, "ok_ward": 100, "ok_xward": 85, "ok_rei": 100, "unchanged_checks": 400},
+                    "max_skip_frac": 0.3},
+          "thorough": {"nontrivial": 3500, "tags": {"returned:ward": 3400, "returned:xward": 2800, "returned:rei": 3400},
+                       "extras": {"judged_ok": 8000, "ok_ward": 2800, "ok_xward": 2400, "ok_rei": 2800}, "max_skip_frac": 0.3}}
 RULE = ("IEEE/MATPOWER cases bundled with pandapower (case9/14/30/ieee30/39/57) with seeded perturbations (load and generation scaling, "
-        "line outages, added sgens / shunts / wards / xwards / motors / storages) x random connected internal sets grown from the slack "
-        "bus (or a random bus) with boundary = their external neighbours x the three equivalent types with random method options; "
-        "one case = one network split, 3 evaluations; non-trivial = at least one equivalent was returned and judged")
-ASSUMPTIONS = ["original solved with runpp(calculate_voltage_angles=True, tolerance 1e-8 MVA); the equivalent is re-solved with the same call; "
-               "bounds 1e-6 p.u. and 1e-4 deg (the documentation promises 1e-6 p.u./deg)",
-               "REI is only judged on networks without phase shifting transformers (documented known problem)",
-               "a None result (no external bus) and the documented ValueErrors are skips; every other exception is a violation"]
+        "one line outage, added sgens / shunt / ward / xward / motor / storage at random buses) x random connected internal sets grown "
+        "from the slack bus (80 %) or a random bus, boundary = their external neighbours x the three equivalent types with random "
+        "method options (ward_admittance, REI load_separate / sgen_separate); one case = one network split, up to 3 evaluations; "
+        "non-trivial = at least one equivalent was returned and judged; distinct = digest of input tables + split")
+ASSUMPTIONS = ["original solved with runpp(calculate_voltage_angles=True, tolerance 1e-8 MVA); the equivalent is re-solved with the same call "
+               "(DC start, then flat start); bounds 1e-6 p.u. and 1e-4 deg (documentation: 1e-6 p.u./deg; measured <= 4.2e-8 / 1.5e-6)",
+               "an equivalent whose power flow only reaches a low-voltage root or diverges from one start but reproduces the point from "
+               "the other start is accepted (alternate roots are no violations)",
+               "REI is only judged on networks without phase shifting transformers (documented known problem); gen_separate=False, "
+               "return_internal=False and adapt_va_degree are not exercised",
+               "a None result (no external bus) and the documented ValueErrors are skips; every other exception is a violation",
+               "known-finding mechanisms are assigned only by observation of the defective branch (spy on the xward parameters, eq_switch in "
+               "the result) or when a physically identical counterfactual input (same operating point to 1e-8) is judged ok"]
 
-BASES = [("case9", pn.case9), ("case14", pn.case14), ("case30", pn.case30), ("case_ieee30", pn.case_ieee30), ("case39", pn.case39),
-         ("case57", pn.case57)]
+BASES = [("case9", pn.case9), ("case14", pn.case14), ("case14", pn.case14), ("case30", pn.case30), ("case_ieee30", pn.case_ieee30),
+         ("case39", pn.case39), ("case57", pn.case57)]
+_CACHE = {}
 REFUSALS = ("unsupplied boundary", "No boundary buses", "no active slack", "if controllers are used")
 V_TOL, A_TOL = 1e-6, 1e-4
 
@@ -53,57 +65,13 @@ def _spy_xw(*a, **k):
 ge_mod._calculate_xward_and_impedance_parameters = _spy_xw
 
 
-def perturbed_net(g, name, factory):
-    net = factory()
-    R, B, I, C = g.R, g.B, g.I, g.C
-    feats = set()
-    net.load["p_mw"] *= g.rng.uniform(0.6, 1.15, len(net.load))
-    net.load["q_mvar"] *= g.rng.uniform(0.6, 1.15, len(net.load))
-    if len(net.gen):
-        net.gen["p_mw"] *= g.rng.uniform(0.7, 1.1, len(net.gen))
-    buses = list(net.bus.index)
-    pv = set(net.gen.bus) | set(net.ext_grid.bus)
-    s = float(net.load.p_mw.abs().mean()) if len(net.load) else 10.
-    for _ in range(I(0, 3)):
-        pp.create_sgen(net, C(buses), R(0, 0.6) * s, R(-0.2, 0.2) * s)
-        feats.add("sgen")
-    if B(0.3):
-        pp.create_shunt(net, C(buses), q_mvar=R(-0.3, 0.3) * s, p_mw=R(0, 0.05) * s)
-        feats.add("shunt")
-    if B(0.25):
-        pp.create_ward(net, C(buses), ps_mw=R(-0.3, 0.3) * s, qs_mvar=R(-0.1, 0.1) * s, pz_mw=R(0, 0.2) * s, qz_mvar=R(-0.2, 0.2) * s)
-        feats.add("ward")
-    if B(0.2):
-        b = C([x for x in buses if x not in pv])
-        zb = float(net.bus.vn_kv.at[b]) ** 2 / net.sn_mva
-        pp.create_xward(net, b, ps_mw=R(-0.3, 0.3) * s, qs_mvar=R(-0.1, 0.1) * s, pz_mw=R(0, 0.2) * s, qz_mvar=R(-0.2, 0.2) * s,
-                        r_ohm=R(0.005, 0.05) * zb, x_ohm=R(0.02, 0.2) * zb, vm_pu=R(0.98, 1.03))
-        feats.add("xward")
-    if B(0.15):
-        pp.create_motor(net, C(buses), pn_mech_mw=R(0.05, 0.4) * s, cos_phi=R(0.75, 0.95), efficiency_percent=R(85, 98),
-                        loading_percent=R(50, 100), scaling=1.)
-        feats.add("motor")
-    if B(0.15):
-        pp.create_storage(net, C(buses), R(-0.3, 0.3) * s, max_e_mwh=10., q_mvar=R(-0.1, 0.1) * s)
-        feats.add("storage")
-    if B(0.3) and len(net.line) > 3:
-        li = int(C(list(net.line.index)))
-        net.line.at[li, "in_service"] = False
-        if len(top.unsupplied_buses(net)):
-            net.line.at[li, "in_service"] = True
-        else:
-            feats.add("line_oos")
-    return net, feats
-
-
 def split(g, net):
-    """connected internal set grown from a start bus; boundary = external neighbours"""
+    """connected internal set grown from the slack bus (or a random bus); boundary = its external neighbours"""
     mg = top.create_nxgraph(net)
     slack = int(net.ext_grid.bus.iloc[0])
     start = slack if g.B(0.8) else int(g.C(list(net.bus.index)))
-    n = len(net.bus)
-    n_int = g.I(1, max(1, n - 4))
     internal = {start}
+    n_int = g.I(1, max(1, len(net.bus) - 4))
     while len(internal) < n_int:
         cand = sorted({v for u in internal for v in mg.neighbors(u) if v not in internal})
         if not cand:
@@ -114,17 +82,54 @@ def split(g, net):
     return sorted(internal), boundary, external, start == slack
 
 
+def build(g):
+    """perturbed base case + split; returns net, name, (internal, boundary, external, from_slack)"""
+    R, B, I, C = g.R, g.B, g.I, g.C
+    name, factory = C(BASES)
+    if name not in _CACHE:
+        _CACHE[name] = factory()          # parsing the bundled JSON costs ~1 s, a deep copy 20 ms
+    net = copy.deepcopy(_CACHE[name])
+    net.load["p_mw"] *= g.rng.uniform(0.6, 1.15, len(net.load))
+    net.load["q_mvar"] *= g.rng.uniform(0.6, 1.15, len(net.load))
+    if len(net.gen):
+        net.gen["p_mw"] *= g.rng.uniform(0.7, 1.1, len(net.gen))
+    if B(0.3) and len(net.line) > 3:
+        li = int(C(list(net.line.index)))
+        net.line.at[li, "in_service"] = False
+        if len(top.unsupplied_buses(net)):
+            net.line.at[li, "in_service"] = True
+    buses = [int(b) for b in net.bus.index]
+    pv = set(net.gen.bus) | set(net.ext_grid.bus)
+    s = float(net.load.p_mw.abs().mean()) if len(net.load) else 10.
+    for _ in range(I(0, 3) if B(0.6) else 0):
+        pp.create_sgen(net, C(buses), R(0, 0.6) * s, R(-0.2, 0.2) * s, name="sg")
+    if B(0.3):
+        pp.create_shunt(net, C(buses), q_mvar=R(-0.3, 0.3) * s, p_mw=R(0, 0.05) * s, name="sh")
+    if B(0.2):
+        pp.create_ward(net, C(buses), ps_mw=R(-0.3, 0.3) * s, qs_mvar=R(-0.1, 0.1) * s, pz_mw=R(0, 0.2) * s, qz_mvar=R(-0.2, 0.2) * s,
+                       name="wd")
+    if B(0.1):
+        b = C([x for x in buses if x not in pv])
+        zb = float(net.bus.vn_kv.at[b]) ** 2 / net.sn_mva
+        pp.create_xward(net, b, ps_mw=R(-0.3, 0.3) * s, qs_mvar=R(-0.1, 0.1) * s, pz_mw=R(0, 0.2) * s, qz_mvar=R(-0.2, 0.2) * s,
+                        r_ohm=R(0.005, 0.05) * zb, x_ohm=R(0.02, 0.2) * zb, vm_pu=R(0.98, 1.03), name="xw")
+    if B(0.12):
+        pp.create_motor(net, C(buses), pn_mech_mw=R(0.05, 0.4) * s, cos_phi=R(0.75, 0.95), efficiency_percent=R(85, 98),
+                        loading_percent=R(50, 100), scaling=1., name="mo")
+    if B(0.1):
+        pp.create_storage(net, C(buses), R(-0.3, 0.3) * s, max_e_mwh=10., q_mvar=R(-0.1, 0.1) * s, name="st")
+    return net, name, split(g, net)
+
+
 def rnd_eq_options(g, eq):
     o = {}
-    if eq in ("ward", "xward") and g.B(0.3):
+    if eq in ("ward", "xward") and g.B(0.25):
         o["ward_type"] = "ward_admittance"
     if eq == "rei":
-        if g.B(0.3):
+        if g.B(0.25):
             o["load_separate"] = True
-        if g.B(0.3):
+        if g.B(0.25):
             o["sgen_separate"] = False
-        if g.B(0.3):
-            o["gen_separate"] = False
     return o
 
 
@@ -142,67 +147,177 @@ def _res_diff(before, net):
     return out
 
 
-def classify_exception(eq, e):
-    """known-finding signature of an exception raised inside get_equivalent / by runpp on its result"""
+# ------------------------------------------------------------------------------------------------ the oracle
+def judge(res0, net_eq, keep):
+    """(None, stats) if a power flow on the equivalent reproduces vm/va of the retained buses, else (description, stats).
+    The power flow is started from the default (DC) and from the flat start: the equivalents contain negative impedances for which
+    the DC start may diverge or end in a low-voltage root - alternate roots are no property violations (DESIGN section 5)."""
+    missing = [b for b in keep if b not in net_eq.bus.index]
+    if missing:
+        return "retained buses %s are missing in the equivalent" % missing[:8], {}
+    vm0, va0 = res0.vm_pu.loc[keep].values, res0.va_degree.loc[keep].values
+    worst = None
+    for init in ("auto", "flat"):
+        try:
+            pp.runpp(net_eq, calculate_voltage_angles=True, init=init, max_iteration=10 if init == "auto" else 30)
+        except LoadflowNotConverged:
+            continue
+        vm1, va1 = net_eq.res_bus.vm_pu.loc[keep].values, net_eq.res_bus.va_degree.loc[keep].values
+        dv = np.abs(vm1 - vm0)
+        da = np.abs((va1 - va0 + 180.) % 360. - 180.)
+        dv, da = np.where(np.isnan(dv), np.inf, dv), np.where(np.isnan(da), np.inf, da)
+        st = {"dv": float(dv.max()), "da": float(da.max())}
+        if dv.max() <= V_TOL and da.max() <= A_TOL:
+            return None, st
+        if np.nanmin(net_eq.res_bus.vm_pu.values) < 0.5 and np.nanmin(res0.vm_pu.values) > 0.5:
+            continue                                                            # low-voltage root
+        i = int(np.argmax(np.maximum(dv / V_TOL, da / A_TOL)))
+        worst = ("equivalent does not reproduce the operating point: bus %s vm %.8f (orig %.8f), va %.6f (orig %.6f); max |dvm| %.2e, "
+                 "max |dva| %.2e deg (init=%s)" % (keep[i], vm1[i], vm0[i], va1[i], va0[i], dv.max(), da.max(), init)), st
+    return worst if worst else ("runpp on the returned equivalent does not converge to a normal solution (DC and flat start)", {})
+
+
+def evaluate(net, eq, o, internal, boundary, res0):
+    """one get_equivalent call + judgement -> dict(kind = ok / diff / raise / none / refused, what, exc, eq_switch, stats)"""
+    SPY.clear()
+    try:
+        net_eq = get_equivalent(net, eq, list(boundary), list(internal), calculate_voltage_angles=True, **o)
+    except Exception as e:  # noqa
+        if isinstance(e, ValueError) and any(r in str(e) for r in REFUSALS):
+            return {"kind": "refused"}
+        return {"kind": "raise", "exc": e, "what": "equivalent_internal_error: get_equivalent(%s) raised %s: %s" % (
+            eq, type(e).__name__, str(e)[:150])}
+    if net_eq is None:
+        return {"kind": "none"}
+    sw = bool(len(net_eq.switch) and (net_eq.switch.name.astype(str) == "eq_switch").any())
+    try:
+        what, st = judge(res0, net_eq, internal + boundary)
+    except Exception as e:  # noqa
+        return {"kind": "raise", "exc": e, "eq_switch": sw, "returned": True,
+                "what": "runpp on the returned %s equivalent raised %s: %s" % (eq, type(e).__name__, str(e)[:150])}
+    return {"kind": "ok" if what is None else "diff", "what": what, "stats": st, "eq_switch": sw, "returned": True}
+
+
+# ------------------------------------------------------------------------------------------------ known-finding signatures
+def _ward_as_load_shunt(net, idx):
+    for i in idx:
+        w = net.ward.loc[i]
+        pp.create_load(net, w.bus, w.ps_mw, w.qs_mvar, in_service=bool(w.in_service), name="cf")
+        pp.create_shunt(net, w.bus, q_mvar=w.qz_mvar, p_mw=w.pz_mw, in_service=bool(w.in_service), name="cf")
+    net.ward.drop(idx, inplace=True)
+
+
+def _xward_as_elements(net, idx):
+    """physically identical replacement of xwards: load + shunt + PV bus behind r+jx (per unit on net.sn_mva)"""
+    for i in idx:
+        w = net.xward.loc[i]
+        vn = float(net.bus.vn_kv.at[w.bus])
+        nb = pp.create_bus(net, vn, name="cf_xward_bus")
+        pp.create_load(net, w.bus, w.ps_mw, w.qs_mvar, in_service=bool(w.in_service), name="cf")
+        pp.create_shunt(net, w.bus, q_mvar=w.qz_mvar, p_mw=w.pz_mw, in_service=bool(w.in_service), name="cf")
+        pp.create_gen(net, nb, 0., vm_pu=w.vm_pu, in_service=bool(w.in_service), name="cf_%d" % nb)
+        pp.create_impedance(net, w.bus, nb, w.r_ohm * net.sn_mva / vn ** 2, w.x_ohm * net.sn_mva / vn ** 2, net.sn_mva,
+                            in_service=bool(w.in_service), name="cf")
+    net.xward.drop(idx, inplace=True)
+
+
+def _at(net, el, buses):
+    t = net[el]
+    return list(t.index[t.bus.isin(buses) & t.in_service]) if len(t) else []
+
+
+def mechanisms(net, eq, o, internal, boundary):
+    """[(name, transform)] of the known defects whose triggering condition holds for this evaluation; transform(n) removes the
+    trigger from the solved copy n without changing the physics (counterfactual input)"""
+    keep = set(internal) | set(boundary)
+
+    def ext(n):
+        return [int(b) for b in n.bus.index if int(b) not in keep]
+    out = []
+    wb, xb = _at(net, "ward", boundary), _at(net, "xward", boundary)
+    if (eq in ("ward", "rei") and wb) or (eq in ("xward", "rei") and xb):
+        def t_boundary(n):
+            if eq in ("ward", "rei"):
+                _ward_as_load_shunt(n, _at(n, "ward", boundary))
+            if eq in ("xward", "rei"):
+                _xward_as_elements(n, _at(n, "xward", boundary))
+        out.append(("ward_element_on_boundary_bus", t_boundary))
+    if _at(net, "xward", ext(net)):
+        out.append(("external_xward_replaced_with_wrong_impedance", lambda n: _xward_as_elements(n, _at(n, "xward", ext(n)))))
+
+    def t_as_load(n, kinds):
+        for el in kinds:
+            idx = _at(n, el, ext(n))
+            for i in idx:
+                pp.create_load(n, n[el].bus.at[i], float(n["res_" + el].p_mw.at[i]), float(n["res_" + el].q_mvar.at[i]), name="cf")
+            n[el].drop(idx, inplace=True)
+    if eq == "rei" and _at(net, "storage", ext(net)):
+        out.append(("rei_ignores_external_storage", lambda n: t_as_load(n, ["storage"])))
+    if eq == "rei" and _at(net, "motor", ext(net)):
+        # external motors become loads that do not exist in the original load table: the column matching of the REI loads fails
+        out.append(("rei_load_column_lookup_fails_for_external_motor", lambda n: t_as_load(n, ["motor"])))
+    if eq in ("ward", "xward") and o.get("ward_type") == "ward_admittance" and any(
+            _at(net, el, ext(net)) for el in ("shunt", "ward", "xward", "motor")):
+        # res_bus.p_mw/q_mvar of the external buses are turned into shunts, but only load/sgen/gen/storage are removed afterwards
+        out.append(("ward_admittance_double_counts_external_elements", lambda n: t_as_load(n, ["shunt", "ward", "motor"])))
+    return out
+
+
+def explain(net, eq, o, internal, boundary, external, res0, out):
+    """names of the known-finding mechanisms that explain the failed evaluation out (empty list = unexplained)"""
+    exc = out.get("exc")
     xw = SPY.get("xward")
-    if eq == "xward" and isinstance(e, FloatingPointError) and xw is not None:
+    if eq == "xward" and isinstance(exc, FloatingPointError) and xw is not None:
         x = np.abs(np.asarray(xw.x_ohm.values, dtype=float))
         b = np.abs(np.asarray(xw.shunt.values).imag)
         # a boundary bus whose reduced external admittance has (numerically) no susceptance gets x_ohm = -1/0 -> inf -> 1.8e308
         if ((~np.isfinite(x) | (x > 1e100)) & (b < 1e-9)).any():
-            return "xward_zero_susceptance_inf_reactance"
-    return None
-
-
-def judge(net, res0, net_eq, keep):
-    """violations of the equivalence for the retained buses keep; returns (violation text or None, stats)"""
-    try:
-        pp.runpp(net_eq, calculate_voltage_angles=True)
-    except LoadflowNotConverged:
-        return "runpp on the returned equivalent does not converge", None, {}
-    missing = [b for b in keep if b not in net_eq.bus.index]
-    if missing:
-        return "retained buses %s are missing in the equivalent" % missing[:8], None, {}
-    vm0, va0 = res0.vm_pu.loc[keep].values, res0.va_degree.loc[keep].values
-    vm1, va1 = net_eq.res_bus.vm_pu.loc[keep].values, net_eq.res_bus.va_degree.loc[keep].values
-    dv = np.abs(vm1 - vm0)
-    da = np.abs((va1 - va0 + 180.) % 360. - 180.)
-    dv = np.where(np.isnan(dv), np.inf, dv)
-    da = np.where(np.isnan(da), np.inf, da)
-    st = {"dv": float(dv.max()), "da": float(da.max())}
-    if dv.max() > V_TOL or da.max() > A_TOL:
-        i = int(np.argmax(np.maximum(dv / V_TOL, da / A_TOL)))
-        return ("equivalent does not reproduce the operating point: bus %s vm %.8f (orig %.8f), va %.6f (orig %.6f); max |dvm| %.2e, "
-                "max |dva| %.2e deg" % (keep[i], vm1[i], vm0[i], va1[i], va0[i], dv.max(), da.max())), None, st
-    return None, None, st
+            return ["xward_zero_susceptance_inf_reactance"]
+    cand = mechanisms(net, eq, o, internal, boundary)
+    trials = [[c] for c in cand] + ([cand] if len(cand) > 1 else [])
+    last = out
+    for trial in trials:
+        n2 = copy.deepcopy(net)
+        try:
+            for _, tf in trial:          # the order of mechanisms() matters: xwards are expanded before shunts become loads
+                tf(n2)
+                pp.runpp(n2, calculate_voltage_angles=True)
+        except Exception:  # noqa
+            continue
+        if np.nanmax(np.abs(n2.res_bus.vm_pu.loc[res0.index].values - res0.vm_pu.values)) > 1e-8:
+            continue                                  # the counterfactual input is not the same operating point
+        last = evaluate(n2, eq, o, internal, boundary, res0)
+        if last["kind"] == "ok":
+            return [name for name, _ in trial]
+    # REI replaced a (numerically) zero impedance between two REI buses by a bus-bus switch and dropped their shunts
+    if eq == "rei" and last.get("eq_switch"):
+        return ["rei_zero_impedance_eq_switch_drops_shunts"]
+    return []
 
 
 def run_case(seed, tier, case_no):
     g = netgen.G(seed)
-    name, factory = g.C(BASES)
-    net, feats = perturbed_net(g, name, factory)
+    net, name, (internal, boundary, external, from_slack) = build(g)
     tags = {"base:" + name}
-    sample = {"base": name, "added": sorted(feats)}
+    sample = {"base": name, "added": {el: int(len(net[el])) for el in ("sgen", "ward", "xward", "motor", "storage") if len(net[el])},
+              "internal": internal, "boundary": boundary, "n_external": len(external)}
+    digest = common.net_digest(net, {"i": internal, "b": boundary})
     try:
         pp.runpp(net, calculate_voltage_angles=True)
     except LoadflowNotConverged:
-        return common.case(common.net_digest(net), nontrivial=False, tags=tags, skipped="orig_notconv", sample=sample)
-    internal, boundary, external, from_slack = split(g, net)
-    sample.update(internal=internal, boundary=boundary, n_external=len(external))
-    digest = common.net_digest(net, {"i": internal, "b": boundary})
+        return common.case(digest, nontrivial=False, tags=tags, skipped="orig_notconv", sample=sample)
     if not external or not boundary:
         return common.case(digest, nontrivial=False, tags=tags, skipped="no_external_bus", sample=sample)
     tags.add("start_at_slack" if from_slack else "start_random")
-    ext = set(external)
-    for el in ("gen", "sgen", "load", "shunt", "ward", "xward", "motor", "storage", "ext_grid"):
-        if len(net[el]) and net[el].bus.isin(ext).any():
-            tags.add("ext_" + el)
+    for area, buses in (("ext", external), ("bnd", boundary)):
+        for el in ("gen", "sgen", "load", "shunt", "ward", "xward", "motor", "storage", "ext_grid"):
+            if len(net[el]) and net[el].bus.isin(buses).any():
+                tags.add("%s_%s" % (area, el))
     has_shift = bool(len(net.trafo) and (net.trafo.shift_degree != 0).any())
-    keep = internal + boundary
     res0 = net.res_bus.copy()
     snap, rsnap = snapshot.snapshot(net), _res_snapshot(net)
     viols = []
-    extra = {"returned": 0, "judged_ok": 0, "raised": 0}
+    extra = {"returned": 0, "judged_ok": 0, "raised": 0, "unchanged_checks": 0}
     evals = 0
     sample["options"] = {}
     for eq in ("ward", "xward", "rei"):
@@ -211,46 +326,29 @@ def run_case(seed, tier, case_no):
         if eq == "rei" and has_shift:
             tags.add("rei_skipped_shift")
             continue
-        SPY.clear()
         evals += 1
-        err = net_eq = None
-        try:
-            net_eq = get_equivalent(net, eq, list(boundary), list(internal), calculate_voltage_angles=True, **o)
-        except ValueError as e:
-            if any(r in str(e) for r in REFUSALS):
-                tags.add("refused:" + eq)
-                continue
-            err = e
-        except Exception as e:  # noqa
-            err = e
+        out = evaluate(net, eq, o, internal, boundary, res0)
+        extra["unchanged_checks"] += 1
         d = snapshot.diff(snap, net) + _res_diff(rsnap, net)
         if d:
             viols.append(common.viol("get_equivalent(%s) changed the original network: %s" % (eq, "; ".join(d[:4])), eq_type=eq,
                                      options=o, seed=seed))
-        if err is None and net_eq is None:
-            tags.add("none_returned:" + eq)
+        if out["kind"] in ("refused", "none"):
+            tags.add("%s:%s" % (out["kind"], eq))
             continue
-        what = None
-        if err is None:
+        for k, v in o.items():
+            tags.add("%s:%s=%s" % (eq, k, v))
+        if out.get("returned"):
             extra["returned"] += 1
-            extra["returned_" + eq] = extra.get("returned_" + eq, 0) + 1
             tags.add("returned:" + eq)
-            for k, v in o.items():
-                tags.add("%s:%s=%s" % (eq, k, v))
-            try:
-                what, _, st = judge(net, res0, net_eq, keep)
-                for k, v in st.items():
-                    extra["stat_%s_%s" % (k, eq)] = v
-            except Exception as e:  # noqa
-                err = e
-                what = "runpp on the returned %s equivalent raised %s: %s" % (eq, type(e).__name__, str(e)[:150])
-            if what is None:
-                extra["judged_ok"] += 1
-        else:
-            extra["raised"] += 1
-            what = "equivalent_internal_error: get_equivalent(%s) raised %s: %s" % (eq, type(err).__name__, str(err)[:150])
-        if what:
-            mech = classify_exception(eq, err) if err is not None else None
-            viols.append(common.viol(what, mechanism=mech, eq_type=eq, options=o, seed=seed, internal=internal, boundary=boundary))
+        if out["kind"] == "ok":
+            extra["judged_ok"] += 1
+            extra["ok_" + eq] = extra.get("ok_" + eq, 0) + 1
+            continue
+        extra["raised"] += out["kind"] == "raise"
+        mechs = explain(net, eq, o, internal, boundary, external, res0, out) or [None]
+        for m in mechs:
+            viols.append(common.viol(out["what"], mechanism=m, eq_type=eq, options=o, seed=seed, internal=internal, boundary=boundary,
+                                     explained_by=mechs))
     return common.case(digest, nontrivial=extra["returned"] > 0, tags=tags, violations=viols, sample=sample, evals=max(evals, 1),
                        extra=extra)
